@@ -29,7 +29,9 @@
 From Coq Require Import NArith ZArith List Bool Arith.
 From PLV Require Import Base.PyStr Tok.Tokenizer Parse.Nodes Parse.Parser Parse.ParseWire.
 From PLV Require Import L2T.L2T L2T.L2TWire L2T.Render.
+From PLV Require Import Doc.DocGrammar.
 From PLV Require Import Proofs.RenderModel Proofs.RenderProofs Proofs.RenderCompose Proofs.RenderDefaults.
+From PLV Require Import Proofs.ComposeRender Proofs.ComposeRenderSpace.
 Import ListNotations.
 
 (** * The implementation model equals the specification on every core tree
@@ -253,3 +255,195 @@ Print Assumptions C03_default_tables_core.
 Print Assumptions C03_tree_level_nonvacuous.
 Print Assumptions C03_doc_end_to_end.
 Print Assumptions C03_compositional_nonvacuous.
+
+(** * End to end (composition with C02): the parser half
+
+    [Properties/C02.v: C02_parse_unparse_partial] says which tree the strict
+    parser returns for a written document of the core document grammar
+    [Doc/DocGrammar.v] (text, braced groups, macros with mandatory braced
+    arguments, [$..$] [\(..\)] [\[..\]], comments, paragraph breaks; [ok_doc] =
+    the side conditions that make the written form unambiguous).  Composed with
+    [C03_l2t_nodes]:
+
+    [doc_cores lt cx d : option (list core)] ([Proofs/ComposeRender.v]) is the
+    decidable side condition on the DOCUMENT and at the same time computes the
+    core items it stands for (whitespace attributed to character items exactly
+    as the nodes collector does it): every macro call of [d], at any depth, is
+    either a macro without arguments ([APStd []] in the parser database) with
+    [symbol_repl lt name = Some r] ([KSymbol r post]), or a macro with exactly one
+    [{]-argument written as a braced group that is an accent macro
+    ([accent_macro], [KAccent]) or transparent ([transparent_macro],
+    [KTransparent]) in the text database; the paragraph-break specials is absent
+    from the text table; groups, formulas (with their source text as [verb]),
+    comments are always core.  [None] otherwise ([\frac], [\sqrt], [\section] ...).
+
+    PARTIAL: the core document grammar of C02 only (no environments, specials
+    other than the paragraph break, optional arguments, single-token arguments). *)
+
+(** the meaning of a core document is a core tree with the computed items:
+    any databases, any parsing state, any string [s] in which the document is
+    written at offset [pos] (the source slices of its formulas are read from [s]) *)
+Theorem C03_doc_tree_core_partial : forall lt cx s ps pos fol (d : DocGrammar.doc) ks,
+  doc_cores lt cx d = Some ks -> skipn pos s = unparse d ++ fol ->
+  abstract_items s lt (fst (tree_of cx ps pos d)) = Some ks.
+Proof. exact tree_cores. Qed.
+
+Theorem C03_end_to_end_partial : forall (d : DocGrammar.doc) ks,
+  ok_doc cx0 d = true -> doc_cores lt0 cx0 d = Some ks ->
+  forall o, latex_to_text o (unparse d) false = Some (render (nfc_accent lt0) o (o_sls o) ks, d0).
+Proof. exact end_to_end. Qed.
+
+(** the core items of two documents joined by a paragraph break (the whitespace
+    [ws] in front of the break is the trailing whitespace of the first block) *)
+Theorem C03_doc_cores_par_partial : forall lt cx l1 ws mid l2 tr ks1 ks2,
+  core_of lt cx (Par ws mid) = Some KPar ->
+  doc_cores lt cx {| d_items := l1; d_trail := ws |} = Some ks1 ->
+  doc_cores lt cx {| d_items := l2; d_trail := tr |} = Some ks2 ->
+  doc_cores lt cx {| d_items := l1 ++ Par ws mid :: l2; d_trail := tr |} = Some (ks1 ++ [KPar] ++ ks2).
+Proof. exact doc_cores_par. Qed.
+
+(** the compositional rule at STRING level: two core documents joined by a
+    paragraph break [ws newline mid newline] — the written form is the
+    concatenation of the two written forms around [newline mid newline], and the
+    text is the two texts around a blank line; for every option record *)
+Theorem C03_compositional_par_source_partial : forall o l1 ws mid l2 tr ks1 ks2,
+  let d1 := {| d_items := l1; d_trail := ws |} in
+  let d2 := {| d_items := l2; d_trail := tr |} in
+  let d := {| d_items := l1 ++ Par ws mid :: l2; d_trail := tr |} in
+  ok_doc cx0 d1 = true -> ok_doc cx0 d2 = true -> ok_doc cx0 d = true ->
+  doc_cores lt0 cx0 d1 = Some ks1 -> doc_cores lt0 cx0 d2 = Some ks2 ->
+  unparse d = unparse d1 ++ [10%N] ++ mid ++ [10%N] ++ unparse d2
+  /\ exists t1 t2,
+       latex_to_text o (unparse d1) false = Some (t1, d0)
+       /\ latex_to_text o (unparse d2) false = Some (t2, d0)
+       /\ latex_to_text o (unparse d) false = Some (t1 ++ [10; 10]%N ++ t2, d0).
+Proof. exact compositional_par_source. Qed.
+
+(** non-vacuity: [ab {c %x{$\n \textbf{x $y\alpha$} }\'{e} ] and
+    [\alpha z\n\[ q\times\nr \] \zzunk\n] (a comment, nested group, transparent macro with inline
+    math inside, an accent, bare symbol macros with post-space, display math, an unknown
+    macro), and their join by the paragraph break [space newline tab newline] *)
+Section EndToEndExample.
+  Open Scope N_scope.
+  Let l1 : list item :=
+    [Text [] [97;98];
+     Grp [32] [Text [] [99]; Cmt [32] [120;123;36] [10;32];
+               Mac [] [116;101;120;116;98;102] []
+                   [Grp [] [Text [] [120];
+                            Math [32] MDollar [Text [] [121]; Mac [] [97;108;112;104;97] [] []] []] []]] [32];
+     Mac [] [39] [] [Grp [] [Text [] [101]] []]].
+  Let l2 : list item :=
+    [Mac [] [97;108;112;104;97] [32] []; Text [] [122];
+     Math [10] MBracket [Text [32] [113]; Mac [] [116;105;109;101;115] [10] []; Text [] [114]] [32];
+     Mac [32] [122;122;117;110;107] [10] []].
+  Let d1 : DocGrammar.doc := {| d_items := l1; d_trail := [32] |}.
+  Let d2 : DocGrammar.doc := {| d_items := l2; d_trail := [] |}.
+  Let dj : DocGrammar.doc := {| d_items := l1 ++ Par [32] [9] :: l2; d_trail := [] |}.
+  Let ks1 : list core :=
+    [KText [97; 98; 32];
+     KGroup [KText [99; 32]; KComment [120; 123; 36] [10; 32];
+             KTransparent [KText [120; 32];
+                           KMath false [36] [36] [36; 121; 92; 97; 108; 112; 104; 97; 36]
+                                 [KText [121]; KSymbol [945] []]];
+             KText [32]];
+     KAccent 769 (KGroup [KText [101]]); KText [32]].
+  Let ks2 : list core :=
+    [KSymbol [945] [32]; KText [122; 10];
+     KMath true [92; 91] [92; 93] [92; 91; 32; 113; 92; 116; 105; 109; 101; 115; 10; 114; 32; 92; 93]
+           [KText [32; 113]; KSymbol [215] [10]; KText [114; 32]];
+     KText [32]; KSymbol [] [10]].
+  Example C03_end_to_end_nonvacuous :
+    ok_doc cx0 d1 = true /\ ok_doc cx0 d2 = true /\ ok_doc cx0 dj = true
+    /\ doc_cores lt0 cx0 d1 = Some ks1 /\ doc_cores lt0 cx0 d2 = Some ks2
+    /\ doc_cores lt0 cx0 dj = Some (ks1 ++ [KPar] ++ ks2)
+    /\ (forall o, latex_to_text o (unparse dj) false
+                  = Some (render (nfc_accent lt0) o (o_sls o) (ks1 ++ [KPar] ++ ks2), d0))
+    /\ option_map fst (latex_to_text (ex_opts MMText sls_bos false false) (unparse dj) false)
+       = Some [97; 98; 32; 99; 32; 10; 32; 120; 32; 121; 945; 233; 10; 10; 945; 32; 122; 10; 10; 32; 32; 32; 32;
+               113; 215; 10; 32; 32; 32; 32; 114; 10]
+    /\ option_map fst (latex_to_text {| o_math := MMVerbatim; o_keep_comments := true; o_sls := sls_macros;
+                                      o_kbg := true; o_kbg_minlen := 0 |} (unparse dj) false)
+       = Some [97; 98; 32; 123; 99; 32; 37; 120; 123; 36; 10; 32; 120; 32; 36; 121; 92; 97; 108; 112; 104; 97; 36;
+               32; 125; 123; 769; 233; 125; 769; 32; 10; 10; 945; 122; 10; 10; 92; 91; 32; 113; 92; 116; 105; 109;
+               101; 115; 10; 114; 32; 92; 93; 10; 32]
+    (* a document that is well-formed but not core: \frac{1}{2} *)
+    /\ (let df := {| d_items := [Mac [] [102;114;97;99] [] [Grp [] [Text [] [49]] []; Grp [] [Text [] [50]] []]];
+                     d_trail := [] |} in
+        ok_doc cx0 df = true /\ doc_cores lt0 cx0 df = None).
+  Proof.
+    assert (O1 : ok_doc cx0 d1 = true) by (vm_compute; reflexivity).
+    assert (O2 : ok_doc cx0 d2 = true) by (vm_compute; reflexivity).
+    assert (OJ : ok_doc cx0 dj = true) by (vm_compute; reflexivity).
+    assert (C1 : doc_cores lt0 cx0 d1 = Some ks1) by (vm_compute; reflexivity).
+    assert (C2 : doc_cores lt0 cx0 d2 = Some ks2) by (vm_compute; reflexivity).
+    assert (CJ : doc_cores lt0 cx0 dj = Some (ks1 ++ [KPar] ++ ks2)) by (vm_compute; reflexivity).
+    repeat (split; [assumption|]).
+    split; [exact (C03_end_to_end_partial dj _ OJ CJ)|].
+    split; [vm_compute; reflexivity|]. split; [vm_compute; reflexivity|].
+    split; vm_compute; reflexivity.
+  Qed.
+
+  Example C03_compositional_par_source_nonvacuous : forall o,
+    exists t1 t2,
+      latex_to_text o (unparse d1) false = Some (t1, d0)
+      /\ latex_to_text o (unparse d2) false = Some (t2, d0)
+      /\ latex_to_text o (unparse d1 ++ [10; 9; 10] ++ unparse d2) false = Some (t1 ++ [10; 10] ++ t2, d0).
+  Proof.
+    intros o.
+    destruct (C03_compositional_par_source_partial o l1 [32] [9] l2 [] ks1 ks2) as (U & t1 & t2 & A & B & C);
+      try (vm_compute; reflexivity).
+    exists t1, t2. split; [exact A|]. split; [exact B|]. fold d1 d2 in U. fold dj in C, U.
+    change (unparse d1 ++ [10; 9; 10] ++ unparse d2) with (unparse d1 ++ [10] ++ [9] ++ [10] ++ unparse d2).
+    rewrite <- U. exact C.
+  Qed.
+End EndToEndExample.
+
+(** the SPACE join at string level: a core document ending with the text run [t], the
+    whitespace [ws] (spaces, at most one newline: [ok_doc] of the joined document), a core
+    document starting with the text run [u] — the written form is the concatenation of the
+    two written forms around [ws], and the text is the two texts around [ws], for every
+    option record (in the tree, [t], [ws], [u] and the text / whitespace that follows [u]
+    form ONE character node; text runs of [ok_doc] documents are never blank, which is the
+    [text_kept] hypothesis of [C03_compositional_space]) *)
+Theorem C03_compositional_space_source_partial : forall o l1 w1 t ws u l2 tr ks1 ks2,
+  let d1 := {| d_items := l1 ++ [Text w1 t]; d_trail := [] |} in
+  let d2 := {| d_items := Text [] u :: l2; d_trail := tr |} in
+  let d := {| d_items := l1 ++ Text w1 t :: Text ws u :: l2; d_trail := tr |} in
+  ok_doc cx0 d1 = true -> ok_doc cx0 d2 = true -> ok_doc cx0 d = true ->
+  doc_cores lt0 cx0 d1 = Some ks1 -> doc_cores lt0 cx0 d2 = Some ks2 ->
+  unparse d = unparse d1 ++ ws ++ unparse d2
+  /\ exists t1 t2,
+       latex_to_text o (unparse d1) false = Some (t1, d0)
+       /\ latex_to_text o (unparse d2) false = Some (t2, d0)
+       /\ latex_to_text o (unparse d) false = Some (t1 ++ ws ++ t2, d0).
+Proof. exact compositional_space_source. Qed.
+
+(** non-vacuity: [{c}\alpha ab] joined by [space newline] with [cd e $y$\n] *)
+Example C03_compositional_space_source_nonvacuous : forall o,
+  let l1 := [Grp [] [Text [] [99%N]] []; Mac [] [97;108;112;104;97]%N [32%N] []] in
+  let l2 := [Text [32%N] [101%N]; Math [32%N] MDollar [Text [] [121%N]] []] in
+  let d1 := {| d_items := l1 ++ [Text [] [97;98]%N]; d_trail := [] |} in
+  let d2 := {| d_items := Text [] [99;100]%N :: l2; d_trail := [10%N] |} in
+  unparse d1 = [123; 99; 125; 92; 97; 108; 112; 104; 97; 32; 97; 98]%N
+  /\ unparse d2 = [99; 100; 32; 101; 32; 36; 121; 36; 10]%N
+  /\ exists t1 t2,
+      latex_to_text o (unparse d1) false = Some (t1, d0)
+      /\ latex_to_text o (unparse d2) false = Some (t2, d0)
+      /\ latex_to_text o (unparse d1 ++ [32; 10]%N ++ unparse d2) false = Some (t1 ++ [32; 10]%N ++ t2, d0).
+Proof.
+  intros o l1 l2 d1 d2. split; [vm_compute; reflexivity|]. split; [vm_compute; reflexivity|].
+  destruct (C03_compositional_space_source_partial o l1 [] [97;98]%N [32;10]%N [99;100]%N l2 [10%N]
+              [KGroup [KText [99%N]]; KSymbol [945%N] [32%N]; KText [97; 98]%N]
+              [KText [99; 100; 32; 101; 32]%N; KMath false [36%N] [36%N] [36; 121; 36]%N [KText [121%N]]; KText [10%N]])
+    as (U & t1 & t2 & A & B & C); try (vm_compute; reflexivity).
+  exists t1, t2. split; [exact A|]. split; [exact B|]. fold d1 d2 in U. rewrite <- U. exact C.
+Qed.
+
+Print Assumptions C03_doc_tree_core_partial.
+Print Assumptions C03_compositional_space_source_partial.
+Print Assumptions C03_compositional_space_source_nonvacuous.
+Print Assumptions C03_end_to_end_partial.
+Print Assumptions C03_doc_cores_par_partial.
+Print Assumptions C03_compositional_par_source_partial.
+Print Assumptions C03_end_to_end_nonvacuous.
+Print Assumptions C03_compositional_par_source_nonvacuous.
